@@ -99,11 +99,12 @@ class _Exact:
         return self.hs.pdf(h) * self.s_dist(h).pdf(F * h / tz**2) * 2 * F * h / tz**3
 
     def F_tz(self, tz):
-        """marginal cdf of Tz by quadrature over hs"""
-        lo, hi = float(self.hs.ppf(1e-13)), float(self.hs.ppf(1 - 1e-13))
-        pts = [float(self.hs.ppf(q)) for q in (1e-6, 1e-3, 0.1, 0.5, 0.9, 0.999, 1 - 1e-6)]
-        v, _ = si.quad(lambda h: float(self.hs.pdf(h) * self.F_tz_given_hs(tz, h)), lo, hi, points=pts, limit=400, epsabs=1e-13, epsrel=1e-10)
-        return v
+        """marginal cdf of Tz: 400-point Gauss-Legendre rule in u = F_Hs(h); only used to PLACE conditioning values"""
+        if not hasattr(self, "_gl"):
+            x, w = np.polynomial.legendre.leggauss(400)
+            self._gl = (self.hs.ppf(0.5 * (x + 1)), 0.5 * w)
+        h, w = self._gl
+        return float(np.sum(w * self.F_tz_given_hs(tz, h)))
 
     def tz_at_level(self, q):
         return so.brentq(lambda t: self.F_tz(t) - q, 0.2, 60.0, xtol=1e-10)
@@ -621,7 +622,7 @@ def _tasks(rng, tier):
             pf = [0.2, 1.0, 0.1][(i + npts) % 3]
             tasks.append({"task": "iform", "case": f"iform/{tag}/alpha={alpha:g}", "tag": tag, "model": ms, "alpha": alpha, "pf": pf, "n_points": npts,
                           "rs": rs_kinds[(i + npts) % 3], "seed": S(), "cost": 0.5 * npts})
-        for alpha in (1e-5, 2e-6):
+        for alpha in ((1e-5,) if quick else (1e-5, 2e-6)):
             tasks.append({"task": "iform", "case": f"iform/{tag}/alpha={alpha:g}", "tag": tag, "model": ms, "alpha": alpha, "pf": 0.1, "n_points": 2, "rs": "int", "seed": S(), "cost": 6.0})
     for tag, ms in rand[:(1 if quick else 5)]:
         tasks.append({"task": "iform", "case": "iform/random/alpha=0.03", "tag": tag, "model": ms, "alpha": 0.03, "pf": float(rng.uniform(0.1, 1.0)), "n_points": 6 if quick else 12,
